@@ -22,6 +22,9 @@ DEFS = [
     "DEFINE ROT <ID> <ID> <ID> AS #0 := $0 ; $0 := $1 ; $1 := $2 ; $2 := #0 END DEFINE",
     "DEFINE TWICE <P> ECIWT AS #1 := 2 ; LOOP #1 DO $0 END END DEFINE",
     # two-digit temporaries beside their one-digit prefixes: #1, #10, #11, #100 are four different variables
+    # temporary numbers that agree modulo 2^32, and numbers beyond 2^63: all different temporaries
+    "DEFINE ROT5 <ID> <ID> <ID> <ID> <ID> AS #0 := $0 ; #4294967296 := $1 ; #4294967297 := $2 ; #9223372036854775808 := $3 ; #9223372036854775809 := $4 ; "
+    "$0 := #9223372036854775809 ; $1 := #0 ; $2 := #4294967296 ; $3 := #4294967297 ; $4 := #9223372036854775808 END DEFINE",
     # an expansion that is SHORTER than the use (a whole statement slot is dropped), used inside its own slot
     "DEFINE KEEP <ID> OVER <P> INSTEADOF <P> PEEK AS #0 := $0 ; $1 ; $0 := #0 END DEFINE",
     "DEFINE ROT4 <ID> <ID> <ID> <ID> AS #10 := $0 ; #1 := $1 ; #11 := $2 ; #100 := $3 ; $0 := #100 ; $1 := #10 ; $2 := #1 ; $3 := #11 END DEFINE",
@@ -49,6 +52,8 @@ def stmt(r, depth):
         return ["KEEP", a, "OVER"] + seq(r, depth + 1) + ["INSTEADOF"] + seq(r, 3) + [";"] + seq(r, 3) + ["PEEK"]
     if q < 0.94:
         return ["ROT4", a, b, c, [v for v in VARS if v not in (a, b, c)][0]]
+    if q < 0.97:
+        return ["ROT5", a, b, c, [v for v in VARS if v not in (a, b, c)][0], "v5"]
     return ["ROT", a, b, c]
 
 
